@@ -2,6 +2,6 @@
 EXTENDS BDDSpec
 N2 == <<"a", "b">>
 N3 == <<"a", "b", "c">>
-OpsActions == {"var", "ite", "apply", "drop", "gc", "swap"}
-LetActions == {"var", "apply", "quantify", "cofactor", "compose", "vcompose", "rename", "cube", "drop", "gc", "swap"}
+OpsActions == {"var", "build", "ite", "apply", "drop", "gc", "swap"}
+LetActions == {"var", "build", "apply", "quantify", "cofactor", "compose", "vcompose", "rename", "cube", "drop", "gc", "swap"}
 ====
